@@ -22,6 +22,7 @@ def requests():
     return [
         Request(SRC, fn=["stir::OSMAPOSLReconstruction::update_estimate"]),
         Request(SRC, fn=["stir::OSMAPOSLReconstruction::apply_multiplicative_update", "stir::divide"], files=["/repo/src/iterative/OSMAPOSL/.*", "/repo/src/include/stir/numerics/divide.inl"]),
+        Request(SRC, fn=["stir::OSMAPOSLReconstruction::set_up"]),
     ]
 
 
@@ -129,6 +130,46 @@ def rule_c_elementwise(ctx, f_update, others):
                 det = "image element *= update element (iterators start at %s / %s)" % (src(l), src(r))
             ctx.ob("C07.c-elementwise", f.qn, "image-times-update", ok, f.where(), det)
             n += 1
+    return n
+
+
+def rule_d_filters_keep_positivity(ctx, f):
+    """Non-negative images stay non-negative also when inter-update / inter-iteration filters are used only because set_up() wraps
+    each filter into ChainedDataProcessor(filter, ThresholdMinToSmallPositiveValueDataProcessor): on every path to the filter's own
+    set_up (i.e. whenever the filter is going to be used) the member must have been replaced by such a chain - unconditionally, whatever
+    the user's filter is."""
+    cfg = CFG(f)
+    n = 0
+    for fld in ("inter_update_filter_ptr", "inter_iteration_filter_ptr"):
+        fk = "this." + fld
+        sets = [c for c in f.calls() if c.k == "CXXMemberCallExpr" and (c.callee or "").endswith("::set_up") and c.c and key(c.c[0].strip()) in ("*" + fk, fk) and c.i in cfg.pos]
+        if not sets:
+            ctx.unrec(f.qn, "the filter %s is never set up in set_up()" % fld)
+            continue
+
+        def chains(m):
+            if not (m.k == "CXXMemberCallExpr" and (m.callee or "").split("::")[-1] == "reset" and m.c and key(m.c[0].strip()) == fk and m.call_args()):
+                return False
+            news = [x for x in m.call_args()[0].walk() if x.is_call() and "ChainedDataProcessor" in (x.callee or "")]
+            if not news:
+                return False
+            a = [y.strip() for y in news[0].call_args()]
+
+            def unwrap(y):
+                # copies / conversions of a shared_ptr denote the same pointer
+                while y.k in ("CXXConstructExpr", "CXXTemporaryObjectExpr", "Cast") and len(y.c) == 1:
+                    y = y.c[0].strip()
+                return y
+
+            a = [unwrap(y) for y in a]
+            if len(a) != 2 or key(a[0]) != fk:
+                return False
+            # the second member is a positivity thresholding
+            return "ThresholdMinToSmallPositiveValueDataProcessor" in (a[1].type or "") or any("ThresholdMinToSmallPositiveValueDataProcessor" in (y.callee or "") for y in a[1].walk() if y.is_call())
+
+        w = cfg.must_pass_from_entry(sets, chains)
+        ctx.ob("C07.d-filters-keep-positivity", f.qn, fld, w is None, sets[0].where(), "whenever %s is used it has been wrapped as Chained(filter, positivity thresholding), on every path" % fld if w is None else "a path sets up and uses %s without chaining the positivity thresholding after it: negative filter lobes enter the estimate" % fld)
+        n += 1
     return n
 
 
@@ -280,5 +321,12 @@ def run(ctx):
                 others.append(g)
         rule_c_elementwise(ctx, f, others)
         ctx.require_count("C07.c-elementwise", 5)
+    u3 = ctx.ex.get(reqs[2])
+    su = [g for g in (u3.functions if u3 is not None else []) if g.short == "set_up" and g.body is not None and not g.is_dependent and g.cfg_raw]
+    if not su:
+        ctx.fail_broken("anchor OSMAPOSLReconstruction::set_up (instantiation) not found")
+    else:
+        rule_d_filters_keep_positivity(ctx, su[0])
+        ctx.require_count("C07.d-filters-keep-positivity", 2)
     ctx.require_count("C07.a-subiteration-structure", 2)
     ctx.require_count("C07.b-MAP-denominator", 4)
